@@ -13,7 +13,50 @@ from distance3d import colliders as C
 from distance3d import gjk, mpr, epa as EPA
 
 
+def _pose_from(spec):
+    """the 4x4 pose that update_pose must be given to bring a collider of this kind to the spec's placement"""
+    k = spec["kind"]
+    if "pose" in spec:
+        return np.array(spec["pose"], dtype=float)
+    T = np.eye(4)
+    if k == "sphere":
+        T[:3, 3] = spec["center"]
+    elif k == "disk":
+        from distance3d.utils import plane_basis_from_normal
+        n = np.array(spec["normal"], dtype=float)
+        x, y = plane_basis_from_normal(n)
+        T[:3, 0], T[:3, 1], T[:3, 2], T[:3, 3] = x, y, n, spec["center"]
+    elif k == "ellipse":
+        ax = np.array(spec["axes"], dtype=float)
+        T[:3, 0], T[:3, 1], T[:3, 2], T[:3, 3] = ax[0], ax[1], np.cross(ax[0], ax[1]), spec["center"]
+    else:
+        return None
+    return T
+
+
 def build(spec):
+    """spec["via_update"]: the collider is constructed at another placement and brought to the spec's
+    placement by update_pose (a collider that was moved must answer like a freshly built one)."""
+    if spec.get("via_update") and spec["kind"] != "hull":
+        target = _pose_from(spec)
+        first = dict(spec)
+        first.pop("via_update")
+        first.pop("margin", None)
+        start = np.eye(4)
+        start[:3, 3] = [0.5, -0.25, 0.125]
+        if "pose" in first:
+            first["pose"] = start.tolist()
+        else:
+            first["center"] = start[:3, 3].tolist()
+            if first["kind"] == "disk":
+                first["normal"] = [0.0, 0.0, 1.0]
+            elif first["kind"] == "ellipse":
+                first["axes"] = [[1.0, 0.0, 0.0], [0.0, 1.0, 0.0]]
+        c = build(first)
+        c.update_pose(np.ascontiguousarray(target))
+        if "margin" in spec:
+            c = C.Margin(c, float(spec["margin"]))
+        return c
     k = spec["kind"]
     if k == "sphere":
         c = C.Sphere(np.array(spec["center"], dtype=float), float(spec["radius"]))
